@@ -52,6 +52,7 @@ type c02World struct {
 	x, y, c, nilID *ast.Ident // the identifiers (shared AST nodes, as in a real function)
 	xnil, ynil, cv bool       // symbolic valuation
 	pos            int
+	leafBudget     int // how many more atoms the condition may contain (LEAVES)
 }
 
 func (w *c02World) ident(name string) *ast.Ident {
@@ -62,31 +63,45 @@ func (w *c02World) ident(name string) *ast.Ident {
 // gen builds a condition of bounded depth; every constructor choice is explored.
 func (w *c02World) gen(depth int, boolLits bool) ast.Expr {
 	n := 5
+	// a binary connective needs two leaves: it is offered only while the leaf budget allows it
+	if depth > 0 && w.leafBudget < 2 {
+		n = 7
+		k := ndChoice("shape", n)
+		if k >= 5 {
+			if k == 5 {
+				return &ast.UnaryExpr{Op: token.NOT, X: w.gen(depth-1, boolLits)}
+			}
+			return &ast.ParenExpr{X: w.gen(depth-1, boolLits)}
+		}
+		return w.leaf(k)
+	}
 	if depth > 0 {
 		n = 9
 		if boolLits {
 			n = 13
 		}
 	}
-	switch ndChoice("shape", n) {
-	case 0:
-		return &ast.BinaryExpr{X: w.x, Op: token.EQL, Y: w.ident("nil")}
-	case 1:
-		return &ast.BinaryExpr{X: w.x, Op: token.NEQ, Y: w.ident("nil")}
-	case 2:
-		return &ast.BinaryExpr{X: w.ident("nil"), Op: token.EQL, Y: w.y}
-	case 3:
-		return &ast.BinaryExpr{X: w.ident("nil"), Op: token.NEQ, Y: w.y}
-	case 4:
-		return w.c
+	k := ndChoice("shape", n)
+	switch k {
+	case 0, 1, 2, 3, 4:
+		return w.leaf(k)
 	case 5:
 		return &ast.UnaryExpr{Op: token.NOT, X: w.gen(depth-1, boolLits)}
 	case 6:
 		return &ast.ParenExpr{X: w.gen(depth-1, boolLits)}
-	case 7:
-		return &ast.BinaryExpr{X: w.gen(depth-1, boolLits), Op: token.LAND, Y: w.gen(depth-1, boolLits)}
-	case 8:
-		return &ast.BinaryExpr{X: w.gen(depth-1, boolLits), Op: token.LOR, Y: w.gen(depth-1, boolLits)}
+	case 7, 8:
+		op := token.LAND
+		if k == 8 {
+			op = token.LOR
+		}
+		// the left operand may use all but one of the remaining leaves, the right one what is left
+		total := w.leafBudget
+		w.leafBudget = total - 1
+		l := w.gen(depth-1, boolLits)
+		usedLeft := (total - 1) - w.leafBudget
+		w.leafBudget = total - usedLeft
+		r := w.gen(depth-1, boolLits)
+		return &ast.BinaryExpr{X: l, Op: op, Y: r}
 	case 9:
 		return &ast.BinaryExpr{X: w.gen(depth-1, boolLits), Op: token.EQL, Y: w.ident("true")}
 	case 10:
@@ -96,6 +111,22 @@ func (w *c02World) gen(depth int, boolLits bool) ast.Expr {
 	default:
 		return &ast.BinaryExpr{X: w.gen(depth-1, boolLits), Op: token.NEQ, Y: w.ident("true")}
 	}
+}
+
+// leaf builds one of the five atoms and charges the leaf budget.
+func (w *c02World) leaf(k int) ast.Expr {
+	w.leafBudget--
+	switch k {
+	case 0:
+		return &ast.BinaryExpr{X: w.x, Op: token.EQL, Y: w.ident("nil")}
+	case 1:
+		return &ast.BinaryExpr{X: w.x, Op: token.NEQ, Y: w.ident("nil")}
+	case 2:
+		return &ast.BinaryExpr{X: w.ident("nil"), Op: token.EQL, Y: w.y}
+	case 3:
+		return &ast.BinaryExpr{X: w.ident("nil"), Op: token.NEQ, Y: w.y}
+	}
+	return w.c
 }
 
 // eval is the reference semantics of the ORIGINAL condition under the symbolic valuation.
@@ -174,6 +205,7 @@ func Harness_C02() {
 	w.x, w.y, w.c = w.ident("x"), w.ident("y"), w.ident("c")
 	depth := ndParam("DEPTH", 2)
 	boolLits := ndParam("BOOL_LITERALS", 0) == 1
+	w.leafBudget = ndParam("LEAVES", 8)
 	e := w.gen(depth, boolLits)
 	want := w.eval(e)
 
